@@ -45,3 +45,51 @@ func VerifChanLen(pj *ParsedJson) int {
 	}
 	return len(pj.internal.indexChans)
 }
+
+// VerifBlock runs one 64-byte block through the stage-1 kernel family selected by avx512 and returns the
+// structural mask; the four carried state words are updated in place. Non-NDJSON (no newline detection).
+func VerifBlock(avx512 bool, buf []byte, prevOdd, prevInQuote, errMask, prevPseudo *uint64) uint64 {
+	if len(buf) < 64 {
+		panic("VerifBlock: need 64 bytes")
+	}
+	if avx512 {
+		return find_structural_bits_avx512(buf, prevOdd, prevInQuote, errMask, 0, prevPseudo)
+	}
+	return find_structural_bits(buf, prevOdd, prevInQuote, errMask, 0, prevPseudo)
+}
+
+// VerifKernels runs the individual kernels of one family on a 64-byte block.
+func VerifKernels(avx512 bool, buf []byte, prevOdd, prevInQuote uint64) (oddEnds, prevOddOut, quoteMask, quoteBits, errMask, prevInQuoteOut, whitespace, structurals uint64) {
+	if len(buf) < 64 {
+		panic("VerifKernels: need 64 bytes")
+	}
+	po, pq := prevOdd, prevInQuote
+	if avx512 {
+		oddEnds = find_odd_backslash_sequences_avx512(buf, &po)
+		quoteMask = find_quote_mask_and_bits_avx512(buf, oddEnds, &pq, &quoteBits, &errMask)
+		find_whitespace_and_structurals_avx512(buf, &whitespace, &structurals)
+	} else {
+		oddEnds = find_odd_backslash_sequences(buf, &po)
+		quoteMask = find_quote_mask_and_bits(buf, oddEnds, &pq, &quoteBits, &errMask)
+		find_whitespace_and_structurals(buf, &whitespace, &structurals)
+	}
+	return oddEnds, po, quoteMask, quoteBits, errMask, pq, whitespace, structurals
+}
+
+// VerifFinalize exposes finalize_structurals.
+func VerifFinalize(structurals, whitespace, quoteMask, quoteBits uint64, prevPseudo *uint64) uint64 {
+	return finalize_structurals(structurals, whitespace, quoteMask, quoteBits, prevPseudo)
+}
+
+// VerifNewlines exposes the newline-delimiter kernels.
+func VerifNewlines(avx512 bool, buf []byte, quoteMask uint64) uint64 {
+	if avx512 {
+		return _find_newline_delimiters_avx512(buf, quoteMask)
+	}
+	return _find_newline_delimiters(buf, quoteMask)
+}
+
+// VerifFlatten exposes flatten_bits_incremental.
+func VerifFlatten(base *[1536]uint32, index *int, mask uint64, carried *int, position *uint64) {
+	flatten_bits_incremental(base, index, mask, carried, position)
+}
